@@ -14,6 +14,11 @@ struct ChaosRun : NodeEnv {
     ChaosRun(const Plan &p, Cov &c, bool vb) : NodeEnv(p, c, vb) { memset(cbuf, 0, sizeof cbuf); }
     ~ChaosRun() { for (auto &b : cbuf) free(b); }
     static void appCb(void *) { if (W) W->preemptPoint(2000); }
+    std::vector<Op> cbQueue[7]; int cbDepth = 0; bool hooks = false;
+    void fire(int which) { if (cbDepth || cbQueue[which].empty() || stopped) return; cbDepth++; Op a = cbQueue[which].back(); cbQueue[which].pop_back(); int keep = w.cur; apiCall(a); w.cur = keep; cbDepth--; cov.hit("api-call-from-inside-a-callback"); }
+    void installHooks() { if (hooks) return; hooks = true;
+        w.onHbConsEvent = [this](uint8_t) { fire(0); }; w.onHbConsChange = [this](uint8_t, int) { fire(1); }; w.onPdoTransmit = [this](const Frame &) { fire(2); }; w.onPdoReceive = [this](const Frame &) { fire(3); };
+        w.onSyncUpdate = [this](int) { fire(4); }; w.onModeChange = [this](int) { fire(5); }; w.onCanReceive = [this](const Frame &) { fire(6); }; }
     static void doneCb(CO_CSDO *, uint16_t, uint8_t, uint32_t) {}
 
     void buildDict() {
@@ -100,6 +105,8 @@ struct ChaosRun : NodeEnv {
         else if (k == "tick") { w.tick(0, (uint64_t)o.arg(0)); if (o.arg(0) > 1) cov.hit("F17-tick-burst"); }
         else if (k == "process") { w.process(0); cov.hit("F13-deferred-processing"); }
         else if (k == "api") apiCall(o);
+        else if (k == "cbapi") {   // application code inside a callback: the next time callback number arg(4) % 7 runs, it makes this API call (no CONodeStop / CONodeStart from there, one level deep)
+            int which = (int)((uint64_t)o.arg(4) % 7); Op a = o; a.k = "api"; if (a.a[0] % 30 == 28 || a.a[0] % 30 == 16) a.a[0] = 22; if (cbQueue[which].size() < 4) cbQueue[which].push_back(a); installHooks(); }
         else if (k == "sendfail") { S().sendFail = (int)o.arg(0) % 6; cov.hit("F5-can-send-failure"); }
         else if (k == "sendfailat") { S().sendFailAfter = (int)o.arg(0) % 130; S().sendFailRet = o.arg(1) ? 0 : -1; cov.hit("F5-can-send-failure-inside-a-burst"); }   // that many frames pass, the next one is refused (error or 'nothing sent')
         else if (k == "readerr") { if (o.arg(1)) S().readErr = (int)o.arg(0) % 4; else S().readEmpty = (int)o.arg(0) % 4; cov.hit("F6-can-read-error"); }
@@ -201,6 +208,7 @@ Plan gen_chaos(Rng &r, bool thorough) {
         else if (c < 53) { Frame f; for (int j = 0; j < 8; j++) f.d[j] = r.byte(); o = Op("rx", {r.chance(1, 10) ? (int64_t)(r.next() & 0x1FFFFFFF) : (int64_t)r.below(0x800), (int64_t)r.pick<int>({8, 8, 0, 1, 7, 9, 15}), 1}, std::vector<uint8_t>(f.d, f.d + 8)); }
         else if (c < 66) o = Op("tick", {r.pick<int64_t>({1, 1, 1, 2, 5, 10, 11, 50, 1000})});
         else if (c < 70) o = Op(strict ? "tick" : "process", {1});
+        else if (c < 88 && r.chance(1, 8)) o = Op("cbapi", {(int64_t)r.below(30), (int64_t)r.next() & 0xFFFFFF, (int64_t)r.below(256), (int64_t)(r.next() & 0xFFFFFFFF), (int64_t)r.below(7)});
         else if (c < 88) o = Op("api", {(int64_t)r.below(30), (int64_t)r.next() & 0xFFFFFF, (int64_t)r.below(256), (int64_t)(r.chance(1, 2) ? r.next() & 0xFFFFFFFF : r.pick<int64_t>({0, 1, 0x65766173, 0x64616F6C, 0x80000000ll, 255, 256, 4000, 4001}))});
         else if (c < 90) o = Op("sendfail", {r.range(1, 5)});
         else if (c < 92) o = Op("readerr", {r.range(1, 3), (int64_t)r.below(2)});
